@@ -127,7 +127,7 @@ def run_analysis_property(prop, tier, seed):
         nontriv = sum(1 for r in ok if len(r.get("idents", [])) >= 2)
         unit = "resolved identifier tokens"
         total = sum(len(r.get("idents", [])) for r in ok)
-    if total == 0:
+    if not v.violations and total == 0:
         raise ToolError("vacuous run: no %s observed" % unit)
     samples = []
     for i in (0, len(items) // 2, len(items) - 60):
